@@ -97,6 +97,11 @@ def run_shards(binary, inp, shards, timeout):
 CRED_FLAGS = {"vcsig", "revoked", "expired"}
 
 
+WRONG_AUDS = ["missing", "unrelated", "other_tenant", "extends", "prefix", "array_without"]   # = AllWrongAuds of the spec
+SHAPES = [(n, m, q) for n in (1, 2, 3) for m in range(1, n + 1) for q in range(1, n + 1)]            # = AllShapes
+MODEL_SHAPED = ("shp", "cshp", "win")     # families whose envelope / audience come from the model
+
+
 def concretise(beh, rnd, family, idx, force=None):
     """Adds the concrete choices the model abstracts from (seeded): proof formats, defect variants, definition size."""
     steps = []
@@ -112,6 +117,18 @@ def concretise(beh, rnd, family, idx, force=None):
                 st["fmt"], st["vcfmt"] = force
             st["var"] = {f: rnd.randrange(24) for f in st.get("d", [])}
             st["var"]["issuer"] = rnd.randrange(2)
+            st["var"]["filler"] = rnd.randrange(2)
+            st["var"]["audalt"] = rnd.randrange(2)
+            # The answer of the model does not depend on the envelope (number of presentations, which one carries the
+            # credentials, which one the defect) nor on the kind of wrong audience: behaviours of the configs that fix them
+            # get a random one. (Not with a nonce defect: there the envelope decides what is burnt afterwards.)
+            if family not in MODEL_SHAPED and not {"nononce", "badnonce"} & set(st.get("d", [])):
+                if rnd.random() < 0.4:
+                    st["nvp"], st["main"], st["pos"] = rnd.choice(SHAPES[1:])
+                if "aud" in st.get("d", []):
+                    st["audv"] = rnd.choice(WRONG_AUDS)
+                elif st["fmt"] == "jwt" and rnd.random() < 0.25:
+                    st["audv"] = "array_with"
             st["pd2"] = bool(pd2 and st.get("def", "plain") == "plain" and "partial" not in st.get("d", [])) if family not in ("code", "code2") else pd2
         if st["a"] == "Authorize":
             st["pd2"] = pd2     # the scope is fixed by the authorization request
@@ -136,6 +153,10 @@ def pick(behaviours, n, rnd, must=None):
     return (first + rest)[:n] if len(first) < n else first[:n]
 
 
+# extra environment of the TLC runs (the tlc wrapper selects the garbage collector itself)
+JVM = {}
+
+
 def step_key(s):
     d = s.get("def")
     return (s["a"], tuple(s.get("d", [])), s.get("stage") or s.get("res"), s.get("ext"), d if d not in (None, "plain") else None,
@@ -143,8 +164,11 @@ def step_key(s):
 
 
 def keys_of(b):
-    """What a behaviour exercises: every (request, model stage) and every pair (previous answer, request)."""
+    """What a behaviour exercises: every (request, model stage), every (request, envelope), every (request, audience class)
+    and every pair (previous answer, request)."""
     ks = {("1", step_key(x)) for x in b}
+    ks |= {("1", "shape", x["a"], tuple(x.get("d", [])), x["nvp"], x["main"], x["pos"]) for x in b if "nvp" in x}
+    ks |= {("1", "aud", x["a"], tuple(x.get("d", [])), x["audv"], x.get("fmt")) for x in b if "audv" in x}
     ks |= {("2", x["a"], x.get("stage") or x.get("res"), step_key(y)) for x, y in zip(b, b[1:])}
     return ks
 
@@ -181,14 +205,14 @@ def cover_pick(behaviours, n, rnd, must=None):
 
 
 def gen_exhaustive(cfg, workers=2):
-    g = vlib.tlc("MCOAuth", cfg, workers=workers, timeout=900)
+    g = vlib.tlc("MCOAuth", cfg, workers=workers, timeout=900, env=JVM)
     if not g.ok:
         raise Inconclusive("generation run %s failed: %s %s\n%s" % (cfg, g.violation, g.error, g.raw[-1500:]))
     return g, vlib.dedupe_maximal(g.printed)
 
 
 def gen_simulate(cfg, n, depth, seed):
-    s = vlib.tlc("MCOAuth", cfg, workers=1, simulate="num=%d" % n, depth=depth, seed=seed, timeout=600)
+    s = vlib.tlc("MCOAuth", cfg, workers=1, simulate="num=%d" % n, depth=depth, seed=seed, timeout=600, env=JVM)
     if s.error and "timeout" in s.error:
         raise Inconclusive(s.error)
     if s.violation:
@@ -207,7 +231,7 @@ def action_coverage(raw):
     for m in re.finditer(r"^<(\w+) line \d+, col \d+ to line \d+, col \d+ of module OAuth(?: \((\d+) \d+ \d+ \d+\))?>: (\d+):(\d+)", raw, re.M):
         name, loc, total = m.group(1), m.group(2), int(m.group(4))
         if loc and 0 < int(loc) <= len(spec):
-            line = spec[int(loc) - 1]
+            line = " ".join(spec[int(loc) - 1:int(loc) + 1])      # (a disjunct of Next may continue on the next line)
             hit = [a for a in ACTIONS if re.search(r"\b%s\(" % a, line)]
             if hit:
                 name = hit[0]
@@ -219,7 +243,7 @@ def action_coverage(raw):
 
 
 def check_model(cfg, workers=2, coverage=False):
-    m = vlib.tlc("MCOAuth", cfg, workers=workers, timeout=1800, coverage=coverage)
+    m = vlib.tlc("MCOAuth", cfg, workers=workers, timeout=1800, coverage=coverage, env=JVM)
     if m.error:
         raise Inconclusive("TLC %s: %s\n%s" % (cfg, m.error, m.raw[-1500:]))
     if m.violation:
@@ -290,7 +314,7 @@ def validate_linear(cfg, traces, timeout=600, batch=1000, max_rejected=12):
             tf = os.path.join(work, "trace.ndjson")
             with open(tf, "w") as fh:
                 fh.write("\n".join(lines) + "\n")
-            r = vlib.tlc("TraceOAuth", cfg, workers=1, timeout=timeout, env={"VERIF_TRACE": tf}, deque=True)
+            r = vlib.tlc("TraceOAuth", cfg, workers=1, timeout=timeout, env=dict(JVM, VERIF_TRACE=tf), deque=True)
         finally:
             shutil.rmtree(work, ignore_errors=True)
         if r.error and "timeout" in r.error:
@@ -345,13 +369,16 @@ def run(prop, tier, seed, replay=None):
 
     # ---- 1. TLC: the prescriptive design satisfies C02 (exhaustive); behaviours from the descriptive model
     from concurrent.futures import ThreadPoolExecutor
-    checks = ["OAuth.s2s.quick.cfg", "OAuth.s2s.pairs.quick.cfg", "OAuth.win.check.cfg", "OAuth.code.quick.cfg", "OAuth.ovr.check.cfg"] if quick else \
-             ["OAuth.s2s.thorough.cfg", "OAuth.s2s.seq5.thorough.cfg", "OAuth.win.check.cfg", "OAuth.code.thorough.cfg", "OAuth.ovr.check.cfg"]
-    gens = ["OAuth.win.gen.cfg", "OAuth.s2s.gen.pairs.cfg", "OAuth.s2s.gen.life.cfg", "OAuth.code.gen.cfg", "OAuth.code.gen.pairs.cfg", "OAuth.ovr.gen.cfg"]
+    checks = ["OAuth.s2s.quick.cfg", "OAuth.s2s.pairs.quick.cfg", "OAuth.s2s.shape.quick.cfg", "OAuth.win.check.cfg", "OAuth.code.quick.cfg",
+              "OAuth.code.shape.quick.cfg", "OAuth.ovr.check.cfg"] if quick else \
+             ["OAuth.s2s.thorough.cfg", "OAuth.s2s.seq5.thorough.cfg", "OAuth.s2s.shape.thorough.cfg", "OAuth.win.check.cfg", "OAuth.code.thorough.cfg",
+              "OAuth.code.shape.quick.cfg", "OAuth.ovr.check.cfg"]
+    gens = ["OAuth.win.gen.cfg", "OAuth.s2s.gen.pairs.cfg", "OAuth.s2s.gen.life.cfg", "OAuth.code.gen.cfg", "OAuth.code.gen.pairs.cfg", "OAuth.ovr.gen.cfg",
+            "OAuth.s2s.gen.shape.cfg", "OAuth.code.gen.shape.cfg"]
     if not quick:
         gens.append("OAuth.s2s.gen.seq.cfg")
-    n = dict(pairs_single=10 ** 6, pairs=330, life=260, seq=200, win=36, code=140, codepairs=330, ovr=10 ** 6) if quick else \
-        dict(pairs_single=10 ** 6, pairs=10 ** 6, life=6000, seq=2500, win=260, code=10 ** 6, codepairs=10 ** 6, ovr=10 ** 6)
+    n = dict(pairs_single=10 ** 6, pairs=280, life=260, seq=120, win=36, code=140, codepairs=280, ovr=10 ** 6, shp=420, cshp=360) if quick else \
+        dict(pairs_single=10 ** 6, pairs=10 ** 6, life=6000, seq=2500, win=260, code=10 ** 6, codepairs=10 ** 6, ovr=10 ** 6, shp=10 ** 6, cshp=10 ** 6)
     fam, scripts, cover_keys = {}, [], {}
 
     def select(f, bs, k, must=None):
@@ -364,12 +391,16 @@ def run(prop, tier, seed, replay=None):
         scripts.extend(out)
         return out
 
-    ex = ThreadPoolExecutor(max_workers=4)
+    big = {"OAuth.s2s.quick.cfg", "OAuth.s2s.shape.quick.cfg", "OAuth.s2s.gen.life.cfg", "OAuth.s2s.thorough.cfg", "OAuth.s2s.seq5.thorough.cfg",
+           "OAuth.s2s.shape.thorough.cfg", "OAuth.s2s.gen.seq.cfg"}
+    ex = ThreadPoolExecutor(max_workers=5 if quick else 3)
     drv = ThreadPoolExecutor(max_workers=2)
     try:
-        fg = {g: ex.submit(gen_exhaustive, g, 2) for g in gens[:1]}
-        fc = {c: ex.submit(check_model, c, 2 if quick else 4, not quick) for c in checks}
-        fg.update({g: ex.submit(gen_exhaustive, g, 2) for g in gens[1:]})
+        wk = lambda c: (2 if quick else 3) if c in big else 1        # at most 8 TLC workers at a time
+        fg = {g: ex.submit(gen_exhaustive, g, wk(g)) for g in gens[:1]}
+        order = sorted(checks, key=lambda c: c not in big)
+        fc = {c: ex.submit(check_model, c, wk(c), not quick) for c in order}
+        fg.update({g: ex.submit(gen_exhaustive, g, wk(g)) for g in sorted(gens[1:], key=lambda c: c not in big)})
         fs = ex.submit(gen_simulate, "OAuth.s2s.gen.seq.cfg", 400, 5, seed) if quick else None
         behaviours = {}
         # the real-time scripts sleep most of the time: they start as soon as their behaviours exist
@@ -417,6 +448,11 @@ def run(prop, tier, seed, replay=None):
         add_family("code", select("code", behaviours["OAuth.code.gen.cfg"], n["code"],
                                  must=lambda b: any(s["a"] == "Introspect" and s.get("res") == "active" for s in b)))
         add_family("code2", select("code2", behaviours["OAuth.code.gen.pairs.cfg"], n["codepairs"]))
+        # every single defect x every envelope (1-3 presentations, position of the credentials, position of the defect)
+        # x every audience class, in both flows
+        fourfmt = [(a, c) for a in ("ldp", "jwt") for c in ("ldp", "jwt")]
+        add_family("shp", select("shp", behaviours["OAuth.s2s.gen.shape.cfg"], n["shp"]), force=fourfmt)
+        add_family("cshp", select("cshp", [b for b in behaviours["OAuth.code.gen.shape.cfg"] if len(b) == 2], n["cshp"]), force=fourfmt)
         # (the generation run prints one behaviour per state; only "one token request, then introspections" is wanted here)
         ovr = vlib.dedupe_maximal([b for b in fg["OAuth.ovr.gen.cfg"].result()[0].printed
                                    if len(b) > 1 and b[0]["a"] == "S2SToken" and all(s["a"] == "Introspect" and s["t"] != "bogus" for s in b[1:])])
@@ -477,7 +513,7 @@ def run(prop, tier, seed, replay=None):
         if len(skipped) > len(rt) // 2:
             rep.inconclusive.append("the machine is too loaded for the real-time scripts (%d of %d missed their schedule)" % (len(skipped), len(rt)))
     # vacuity: in every family valid requests must be answered with a token, otherwise nothing was tested
-    for f in ("s2s1", "life", "code", "ovr", "win"):
+    for f in ("s2s1", "life", "code", "ovr", "win", "shp"):
         if fam.get(f) and fam_clean.get(f, 0) == 0:
             rep.inconclusive.append("no valid request of family %s was answered with a token (dead baseline)" % f)
     if clean_fail > max(3, (clean_ok + clean_fail) // 20):
@@ -489,36 +525,41 @@ def run(prop, tier, seed, replay=None):
     withtrace = [r for r in results if r.get("trace") and not r.get("error")]
     drifty = [r for r in withtrace if r.get("drift")]
     good = [r for r in withtrace if not r.get("drift")]
-    traces = [r["trace"] for r in good]
-    acc, rej, unval = validate_linear("OAuth.trace.cfg", traces, timeout=900)
+    # Every trace is validated once: the executions the oracle above has judged as violating (known findings) against the
+    # conformance configuration, all others against the configuration that also evaluates the C02 invariants on every
+    # reconstructed state (TLC stops at the first violated invariant of a batch). The two runs go in parallel.
+    hot = [r for r in good if r["id"] in violating]
+    calm = [r for r in good if r["id"] not in violating]
+    from concurrent.futures import ThreadPoolExecutor as _TPE
+    with _TPE(max_workers=2) as tp:
+        f1 = tp.submit(validate_linear, "OAuth.trace.cfg", [r["trace"] for r in hot], 900, 1500)
+        f2 = tp.submit(validate_linear, "OAuth.trace.props.cfg", [r["trace"] for r in calm], 900, 1500)
+        acc1, rej1, unval1 = f1.result()
+        acc2, rej2, unval2 = f2.result()
+    for x in rej1:
+        x["id"] = hot[x["index"]]["id"]
+    for x in rej2:
+        x["id"] = calm[x["index"]]["id"]
+    acc, unval = acc1 + acc2, unval1 + unval2
+    inv_rej = [x for x in rej2 if x["kind"].startswith("invariant:")]
+    rej = rej1 + [x for x in rej2 if not x["kind"].startswith("invariant:")]
     n_tlc_rejected = len(rej)
     rej = rej + [dict(index=None, event=dict(note=r["drift"][0][:200]), kind="driver-drift", id=r["id"]) for r in drifty]
-    for x in rej:
-        if x["index"] is not None:
-            x["id"] = good[x["index"]]["id"]
     for x in rej[:5]:
         rep.notes.append("DRIFT: trace %s is not a behaviour of the specification at event %s" % (x["id"], json.dumps(x["event"])[:300]))
+    for x in inv_rej[:20]:
+        # a C02 invariant fails on a state reconstructed from a real execution
+        for sig in trace_sigs(x["kind"].split(":", 1)[1], x["event"]):
+            rep.violation(sig, dict(property=prop, violation=dict(kind=x["kind"], event=x["event"]), input=dict(inp0, scripts=[by_id[x["id"]]])))
     if (unval or len(rej) > max(3, len(withtrace) // 20)) and not rep.violations:
         rep.inconclusive.append("%d of %d recorded traces are not behaviours of the specification, %d left unvalidated (spec/code drift)"
                                 % (len(rej), len(withtrace), unval))
-    # the C02 invariants on the states reconstructed from real executions; the executions the oracle above has
-    # already judged as violating are left out (TLC stops at the first violated invariant of a batch)
-    rejected_ids = {x["id"] for x in rej}
-    calm = [r for r in good if r["id"] not in violating and r["id"] not in rejected_ids]
-    acc2, rej2, unval2 = ([0, [], len(calm)] if unval else validate_linear("OAuth.trace.props.cfg", [r["trace"] for r in calm], timeout=900))
-    for x in rej2[:20]:
-        r = calm[x["index"]]
-        if x["kind"].startswith("invariant:"):
-            for sig in trace_sigs(x["kind"].split(":", 1)[1], x["event"]):
-                rep.violation(sig, dict(property=prop, violation=dict(kind=x["kind"], event=x["event"]), input=dict(inp0, scripts=[by_id[r["id"]]])))
-        else:
-            rep.notes.append("DRIFT: trace %s rejected at %s" % (r["id"], json.dumps(x["event"])[:200]))
 
     _t("traces", t0)
     cov = dict(states=states, transitions=transitions, known_findings_reproduced=sorted(rep.known),
-               traces_validated_against_impl=acc + n_tlc_rejected, traces_accepted=acc, traces_rejected=n_tlc_rejected,
+               traces_validated_against_impl=acc + n_tlc_rejected + len(inv_rej), traces_accepted=acc, traces_rejected=n_tlc_rejected,
                traces_not_sent_to_tlc_because_the_driver_saw_drift=len(drifty), traces_left_unvalidated=unval,
-               traces_checked_with_property_invariants=acc2 + len(rej2), traces_violating_property_invariants=len([x for x in rej2 if x["kind"].startswith("invariant:")]),
+               traces_checked_with_property_invariants=acc2 + len(rej2), traces_violating_property_invariants=len(inv_rej),
                samples=samples or [scripts[0]["steps"]], models=models,
                behaviours_available={g: len(b) for g, b in behaviours.items()},
                behaviours_replayed_on_real_code=len(results), behaviours_per_family={f: len(b) for f, b in fam.items()},
@@ -534,7 +575,7 @@ def run(prop, tier, seed, replay=None):
                     "and the session store; every recorded real trace is validated by TLC against TraceOAuth.tla")
     vlib.write_evidence(prop, tier, seed, "model_checking", cov, time.time() - t0, len(rep.violations),
                         ["jwx / json-gold verify signatures correctly (C01, C17 cover the verifier)",
-                         "small scope: <= 2 defect flags per request, <= 2 nonces, <= 2 sessions, behaviours of <= 4-6 steps",
+                         "small scope: <= 2 defect flags per request, <= 3 presentations per envelope (one of them defective), <= 2 nonces, <= 2 sessions, behaviours of <= 4-6 steps",
                          "token expiry is realised by moving issued_at/expiration of the stored token back; presentation and nonce windows use real time (units of 6 s, requests 2.5 s into the unit)",
                          "in-memory session store (the node's default); Redis / memcached backends are not exercised",
                          "the user-wallet leg of OpenID4VP and the legacy v1 JWT-bearer grant (auth/services/oauth) are not driven"])
